@@ -496,7 +496,7 @@ def linearize_segment_contents(part, start, end, state):
 
     other_e = harmony_e + attributes_e + directions_e + barline_e + prints_e
 
-    contents = merge_measure_contents(voices_e, other_e, start.t)
+    contents = merge_measure_contents(voices_e, other_e, start.t, end.t)
 
     return contents
 
@@ -663,7 +663,7 @@ def merge_with_voice(notes, other, measure_start):
     return result, fb_cost
 
 
-def merge_measure_contents(notes, other, measure_start):
+def merge_measure_contents(notes, other, measure_start, measure_end=None):
     merged = {}
     # cost (measured as the total forward/backup jumps needed to merge) all
     # elements in `other` into each voice
@@ -691,6 +691,7 @@ def merge_measure_contents(notes, other, measure_start):
     # merge_voice = sorted(cost.items(), key=itemgetter(1))[0][0]
     result = []
     pos = measure_start
+    reach = measure_start
     for i, voice in enumerate(sorted(notes.keys())):
         if i == 0:  # voice == merge_voice:
             elements = merged[voice]
@@ -724,6 +725,20 @@ def merge_measure_contents(notes, other, measure_start):
         # update current position
         if elements:
             pos = elements[-1][0] + (elements[-1][1] or 0)
+            reach = max(reach, max(t + (dur or 0) for t, dur, _ in elements))
+
+    if measure_end is not None and reach < measure_end and reach > measure_start:
+        # the content stops before the end of the measure: move on to the
+        # end, otherwise a reader takes the measure to be shorter
+        if pos < reach:
+            e = etree.Element("forward")
+            ee = etree.SubElement(e, "duration")
+            ee.text = "{:d}".format(int(reach - pos))
+            result.append(e)
+        e = etree.Element("forward")
+        ee = etree.SubElement(e, "duration")
+        ee.text = "{:d}".format(int(measure_end - reach))
+        result.append(e)
 
     return result
 
